@@ -59,6 +59,9 @@ CLAIMED["C17"] = ("property testing of the static checker: no-crash and in-proce
 CLAIMED["C18"] = ("metamorphic property testing over instrumentation configurations (each ProfileMode, no-op statement hook, debug adapter with generated breakpoint subsets / conditions / stepping patterns) with a channel-driven controller thread; model of stops derived from marker statements",
     "Exploration: every configuration must leave transcript and outcome unchanged; stops on breakpointed marker lines inside defs must match marker executions one-to-one in order, and variables shown at a stop must equal the values the marker records.",
     "Only scalar locals are compared with the debugger's rendering; a silent evaluation thread (30 s) is inconclusive.", "DESIGN.md §5 C18")
+CLAIMED["C19"] = ("property testing of an in-memory language server over request histories: validity predicate for every returned range under UTF-16, and a differential resolution oracle (the document is executed with scope-tagged bindings and probes; go-to-definition must land on a binding of the scope the program actually read); independent line/character recomputation for error spans",
+    "Exploration: every request answered, server stops after exit, every range valid for its document, definition agrees with the running program's scoping for every use site of generated shadowing-heavy documents (with non-ASCII text, CRLF), across didOpen/didChange/didClose histories.",
+    "The generator's scope/tag bookkeeping and the harness LspContext (file map) are trusted; unanswered requests are inconclusive.", "DESIGN.md §5 C19")
 NOT_YET = {}
 
 def main():
